@@ -60,18 +60,23 @@ THOROUGH = [
     # every 4-job graph: clean build, every delete / bump with every single failure, resume; 2 schedules
     ("n4", "explore", ["exh", "n=4", "levels=-/dbf1/-", "paths=2", "steps=0"], TRACEP - {"C15", "C16", "C20"}, False, None),
     # the Ephemeral-rich 4-job graphs: every schedule, aborts, node / edge edits, chains of three
-    ("n4e2", "explore", ["exh", "n=4", "filter=eph2", "levels=f1a/dbnef1a/db", "steps=0", "maxstates=3000"],
+    ("n4e2", "explore", ["exh", "n=4", "filter=eph2", "levels=f1a/dbf1a/-", "steps=0", "maxstates=3000"],
      TRACEP - {"C14", "C15", "C16", "C20"}, False, None),
+    ("n4e2n", "explore", ["exh", "n=4", "filter=eph2", "levels=-/ne/dbne", "paths=2", "steps=0"],
+     {"C01", "C03", "C04", "C11", "C12", "C18"}, False, None),
     ("n4stamp", "explore", ["exh", "n=4", "filter=eph2", "cmp=both", "levels=f1/dbf1/-", "paths=2", "steps=0"], {"C15", "C16"}, False, None),
     ("n4flaky", "explore", ["exh", "n=4", "filter=eph2", "cmp=both", "levels=-/bdk/-", "paths=2", "steps=0"], {"C16"}, False, None),
     ("eph5", "explore", ["exh", "n=5", "filter=eph5", "stride=7", "levels=-/dbf1/-", "paths=2", "steps=0"],
      TRACEP - {"C14", "C15", "C16", "C20"}, False, None),
-    ("rnd6", "explore", ["random", "n=6", "count=400", "levels=f1/dbnef1/db", "paths=3", "steps=0"], TRACEP - {"C15", "C16", "C20"}, False, None),
+    ("rnd6", "explore", ["random", "n=6", "count=200", "levels=f1/dbnef1/db", "paths=3", "steps=0"], TRACEP - {"C15", "C16", "C20"}, False, None),
     ("names3", "explore", ["exh", "n=3", "conv=names", "multi=1", "levels=f1/dbnerf1a/dbrx", "steps=0"],
      {"C01", "C03", "C04", "C06", "C08", "C09", "C11", "C12", "C18"}, True, None),
-    ("names4", "explore", ["exh", "n=4", "conv=names", "multi=1", "filter=eph2", "stride=3", "levels=-/dbrf1/rx", "paths=2", "steps=0"],
+    ("names4", "explore", ["exh", "n=4", "conv=names", "multi=1", "filter=eph2", "stride=5", "levels=-/dbrf1/rx", "paths=2", "steps=0"],
      {"C01", "C03", "C04", "C09", "C18"}, False, None),
-    ("shapes", "explore", ["shapes", "levels=f1a/dbnetf1a/dbf1", "steps=0", "maxstates=3000"],
+    ("shapes", "explore", ["shapes", "levels=f1a/dbf1a/dbf1", "steps=0", "maxstates=3000"],
+     TRACEP - {"C14", "C15", "C16", "C20"}, False, None),
+    # two things changed at once between evaluations (pairs of edits), node / edge edits
+    ("shapes2", "explore", ["shapes", "levels=f1/dbnetf1/db", "paths=4", "steps=0"],
      TRACEP - {"C14", "C15", "C16", "C20"}, False, None),
     ("shapesst", "explore", ["shapes", "cmp=both", "levels=f1a/dbf1a/db", "steps=0", "maxstates=3000"], {"C15", "C16"}, False, None),
     ("shapesfl", "explore", ["shapes", "cmp=both", "levels=-/bdkf1/k", "steps=0", "maxstates=3000"], {"C16"}, False, None),
